@@ -141,6 +141,98 @@ func genAliasSet(r *prng.R) *aliasSet {
 	return as
 }
 
+// genAliasSetMixed: the colliding pattern belongs to declarations of different kinds — the constructor alias of a
+// Kombination (own or imported), a function alias, a second Kombination — in seeded declaration / import order.
+func genAliasSetMixed(r *prng.R) *aliasSet {
+	as := &aliasSet{Tree: &simdisk.Tree{Files: map[string][]byte{}}, Root: "haupt.ddp"}
+	as.Tree.Files["aus.ddp"] = []byte(ausModule)
+	pattern := prng.Pick(r, []string{"ein Ding aus <x>", "Baue etwas aus <x> zusammen", "berechne etwas mit <x>"})
+	as.ExpectDup = r.Chance(0.5)
+	// the two contenders; each is a Kombination or a function, each own or imported
+	type contender struct {
+		kind     string // struct | func
+		imported bool
+		ptype    string
+		name     string
+	}
+	ptypeA := prng.Pick(r, []string{"Zahl", "Text", "Kommazahl"})
+	ptypeB := ptypeA
+	if !as.ExpectDup {
+		for ptypeB == ptypeA {
+			ptypeB = prng.Pick(r, []string{"Zahl", "Text", "Kommazahl", "Buchstabe"})
+		}
+	}
+	a := contender{kind: prng.Pick(r, []string{"struct", "struct", "func"}), imported: r.Bool(), ptype: ptypeA, name: "Erstes"}
+	b := contender{kind: prng.Pick(r, []string{"struct", "func", "func"}), imported: r.Chance(0.3), ptype: ptypeB, name: "Zweites"}
+	if a.imported && b.imported && r.Bool() {
+		b.imported = false
+	}
+	art := func(t string) string {
+		switch t {
+		case "Text", "Buchstabe":
+			return "dem"
+		}
+		return "der"
+	}
+	render := func(c contender, public bool) string {
+		pub, pubf := "", ""
+		if public {
+			pub, pubf = "öffentliche ", "öffentlichen "
+		}
+		if c.kind == "struct" {
+			return fmt.Sprintf("Wir nennen die %sKombination aus\n\t%s %s%s x mit Standardwert %s,\neine %s, und erstellen sie so:\n\t\"%s\"\n\n", pub, art(c.ptype), pubf, c.ptype, defaultLit(c.ptype), c.name, pattern)
+		}
+		return fmt.Sprintf("Die %sFunktion f_%s mit dem Parameter x vom Typ %s, gibt nichts zurück, macht:\n\tdrucke \"%s\".\nUnd kann so benutzt werden:\n\t\"%s\"\n\n", pub, c.name, c.ptype, c.name, pattern)
+	}
+	var root strings.Builder
+	root.WriteString("Binde \"aus\" ein.\n")
+	emit := func(c contender, file string) {
+		if c.imported {
+			as.Tree.Files[file+".ddp"] = []byte("Binde \"aus\" ein.\n\n" + render(c, true))
+			fmt.Fprintf(&root, "Binde \"%s\" ein.\n", file)
+		} else {
+			root.WriteString("\n" + render(c, false))
+		}
+	}
+	first, second := a, b
+	if r.Bool() {
+		first, second = b, a
+	}
+	emit(first, "m_"+strings.ToLower(first.name))
+	emit(second, "m_"+strings.ToLower(second.name))
+	if !as.ExpectDup {
+		// both must be usable afterwards
+		for _, c := range []contender{a, b} {
+			use := strings.Replace(pattern, "<x>", defaultLit(c.ptype), 1)
+			if c.kind == "struct" {
+				fmt.Fprintf(&root, "Die Variable v_%s ist %s.\n", c.name, use)
+			} else {
+				// a statement that begins with a keyword has to be capitalised after a full stop
+				if strings.HasPrefix(use, "ein ") {
+					use = "Ein " + use[4:]
+				}
+				fmt.Fprintf(&root, "%s.\n", use)
+			}
+			as.Calls++
+		}
+	}
+	as.Tree.Files["haupt.ddp"] = []byte(root.String())
+	as.Desc = fmt.Sprintf("mixed kinds: pattern %q, first %s(%s, imported=%t), second %s(%s, imported=%t), duplicate=%t", pattern, first.kind, first.ptype, first.imported, second.kind, second.ptype, second.imported, as.ExpectDup)
+	return as
+}
+
+func defaultLit(t string) string {
+	switch t {
+	case "Text":
+		return "\"t\""
+	case "Kommazahl":
+		return "1,5"
+	case "Buchstabe":
+		return "'b'"
+	}
+	return "7"
+}
+
 var reRapidFail = regexp.MustCompile(`-rapid\.failfile="([^"]+)"`)
 var reRapidMsg = regexp.MustCompile(`\[rapid\] failed after \d+ tests: (.*)`)
 
@@ -253,6 +345,9 @@ func checkC20(tier string) int {
 	for n := 0; n < nSets; n++ {
 		r := prng.Stream(seed, "c20", "aliasset", n)
 		as := genAliasSet(r)
+		if n%3 == 2 {
+			as = genAliasSetMixed(r)
+		}
 		j := fwproto.Job{ID: n, Tree: as.Tree, Root: as.Root, Source: true}
 		j.Steps = []fwproto.Step{{Fresh: true}}
 		for _, s := range orderSpecs(r, false)[:8] {
